@@ -81,8 +81,14 @@ def run_chain(chk, spec):
 		kind = rng.choice(["vv", "vkeep", "ts", "tt", "build", "tkeep", "join", "vv-date", "tattr"])
 		if kind == "vv":
 			a, b = rng.choice(vectors), rng.choice(vectors)
-			opn = rng.choice(["add", "sub", "mul", "truediv", "eq", "lt", "ne", "ge", "radd-list-none"])
-			f = {"add": lambda: a + b, "sub": lambda: a - b, "mul": lambda: a * b, "truediv": lambda: a / b, "eq": lambda: a == b, "lt": lambda: a < b,
+			opn = rng.choice(["add", "sub", "mul", "truediv", "eq", "lt", "ne", "ge", "radd-list-none", "add-incompatible", "sub-incompatible", "mul-decimal"])
+			if opn in ("add-incompatible", "sub-incompatible"):
+				b = Vector(["x"] * len(a), name=rng.choice(NAMES))      # int (op) str: serif pairs the operands instead of raising - still a vector-vector result
+			elif opn == "mul-decimal":
+				from decimal import Decimal
+				a = Vector([1.5] * len(a), name=rng.choice(NAMES))
+				b = Vector([Decimal("2")] * len(a), name=rng.choice(NAMES))
+			f = {"add-incompatible": lambda: a + b, "sub-incompatible": lambda: a - b, "mul-decimal": lambda: a * b, "add": lambda: a + b, "sub": lambda: a - b, "mul": lambda: a * b, "truediv": lambda: a / b, "eq": lambda: a == b, "lt": lambda: a < b,
 				"ne": lambda: a != b, "ge": lambda: a >= b, "radd-list-none": lambda: a + b}[opn]
 			o = call(f)
 			chk.judged("vector-op", ("vv", opn, ncls(a.name), ncls(b.name), depth))
@@ -198,7 +204,7 @@ def run_chain(chk, spec):
 			u = rng.choice(same_width)
 			if rng.random() < 0.5:
 				# a right table with controlled names: equal, absent, different
-				rn = [rng.choice([ln, None, "other", ln, ""]) for ln in t.column_names()]
+				rn = [rng.choice([ln, None, "other", ln, "", ("".join(list(ln)) if isinstance(ln, str) else ln), ("".join(list(ln)) if isinstance(ln, str) else ln)]) for ln in t.column_names()]      # (equal names built at run time are other string objects)
 				u = table(rng, n, rn)
 			opn = rng.choice(["add", "sub", "mul", "truediv"])
 			o = call(common.BIN_OPS[opn], t, u)
@@ -374,7 +380,26 @@ def run_agg_names(chk, spec):
 			f"{spec!r}: output names {got[nk:]!r} do not match requests {[sorted(b) if b else None for b in bases]!r} (unmatched {bad!r})")
 
 
-RUNNERS = {"chain": run_chain, "agg_names": run_agg_names}
+def run_label_names(chk, spec):
+	"""labels that are not strings and compare equal across types (1, True, 1.0): each output is named after ITS column's label"""
+	lab = {"1": 1, "True": True, "1.0": 1.0, "2023": 2023, "2023.0": 2023.0, "0": 0, "False": False, "0.0": 0.0}
+	exp_base = {"1": "c1", "True": "true", "1.0": "c1_0", "2023": "c2023", "2023.0": "c2023_0", "0": "c0", "False": "false", "0.0": "c0_0"}
+	n = 3
+	cols = [Vector(["a", "b", "a"], name="k")] + [Vector([1, 2, 3], name=lab[x]) for x in spec["labels"]]
+	t = Table(cols)
+	fn = spec["fn"]
+	o = call(lambda: getattr(t, spec["op"])(over="k", **{fn + "_over": list(t.cols()[1:])}))
+	chk.judged("agg-names", ("label-names", spec["op"], fn, tuple(spec["labels"])))
+	if not o.ok or not isinstance(o.value, Table):
+		chk.skip("label-names-raised")
+		return
+	got = o.value.column_names()[1:]
+	want = [f"{exp_base[x]}_{fn}" for x in spec["labels"]]
+	if got != want:
+		chk.fail("outputs are named <sanitised column>_<function>", f"names/{spec['op']}/output-names/non-string-labels", f"{spec!r}: labels {[lab[x] for x in spec['labels']]!r}: output names {got!r}, rule gives {want!r}")
+
+
+RUNNERS = {"chain": run_chain, "agg_names": run_agg_names, "label_names": run_label_names}
 RUNNERS["recompute"] = recompute.runner("C18")
 
 
@@ -437,6 +462,10 @@ def run(chk):
 	rng = chk.rng
 	for _ in range(900 if chk.quick() else 6000):
 		chk.case("chain", {"seed": rng.randrange(10**9), "n": rng.choice([1, 2, 3, 4]), "depth": rng.choice([1, 2, 3, 4])}, "chain")
+	import itertools
+	for labels in list(itertools.permutations(["1", "True", "1.0"], 2)) + list(itertools.permutations(["2023", "2023.0"], 2)) + list(itertools.permutations(["0", "False", "0.0"], 3)) + [("1",), ("True",), ("1.0",)]:
+		for op in ("aggregate", "window"):
+			chk.case("label_names", {"labels": list(labels), "op": op, "fn": rng.choice(["sum", "max", "count"])}, "label-names")
 	for _ in range(500 if chk.quick() else 4000):
 		chk.case("agg_names", gen_agg_names_spec(rng), "agg-names")
 	for _ in range(200 if chk.quick() else 1500):
